@@ -461,6 +461,9 @@ func (c *ctr) cx(e ast.Expr) string {
 		return c.cx(v.X)
 	case *ast.SelectorExpr:
 		if id, ok := v.X.(*ast.Ident); ok {
+			if ce, ok := c.p.consts[id.Name+"."+v.Sel.Name]; ok {
+				return c.cx(ce)
+			}
 			if id.Name == c.recv && c.recvType != "" {
 				c.fieldIndex(c.recvType, v.Sel.Name)
 				return "XVar " + q(c.recv+"."+v.Sel.Name)
@@ -1048,6 +1051,7 @@ func compTargets() []ctarget {
 	}
 	add("LeakyRelu", "component/layers/activations", "", "NewLeakyRelu", "toValidLeakyReluConfig")
 	add("Softmax", "component/layers/activations", "", "NewSoftmax", "toValidSoftmaxConfig")
+	add("initializers", "component/initializers", "", "tensorInitConf")
 	for _, a := range []string{"Full", "Uniform", "Normal", "HeUniform", "HeNormal", "XavierUniform", "XavierNormal"} {
 		add(a, "component/initializers", "", "New"+a, "toValid"+a+"Config")
 		add(a, "component/initializers", a, "Init")
@@ -1064,6 +1068,19 @@ func emitComp(repo, outV string) error {
 		p := pkgs[tg.dir]
 		if p == nil {
 			p = loadPkg(repo, tg.dir)
+			if tg.dir == "component/initializers" {
+				// &tensor.Config{Device: tensor.CPU, ..}: the struct and the constants of package tensor, qualified
+				tp := loadPkg(repo, "tensor")
+				for name, fs := range tp.structs {
+					p.structs["tensor."+name] = fs
+				}
+				for name, e := range tp.consts {
+					p.consts["tensor."+name] = e
+				}
+				for name := range tp.intTypes {
+					p.intTypes[name] = true
+				}
+			}
 			if tg.dir == "component/layers" {
 				// struct literals of the initializers package (&initializers.XavierUniformConfig{..})
 				for name, fs := range loadPkg(repo, "component/initializers").structs {
